@@ -204,7 +204,8 @@ def run(tier: str, seed: int) -> Dict[str, Any]:
     rnd = random.Random(seed)
     d = tempfile.mkdtemp(prefix="c13_")
     viol: List[dict] = []
-    nver = npairs = nlang = nsub = nstamp = nreuse = 0
+    nver = npairs = nlang = nsub = nstamp = nreuse = nfail = 0
+    fail_kinds: set = set()
     try:
         cfg = os.path.join(d, "mc.cfg")
         open(cfg, "w").write(CFG.format(steps=3 if q else 4, gen="FALSE", checks="PROPERTY EditChanges\nPROPERTY NoiseKeeps"))
@@ -219,6 +220,7 @@ def run(tier: str, seed: int) -> Dict[str, Any]:
         cache: Dict[str, str] = {}
         for bi, beh in enumerate(behs):
             hashes = []
+            broken = False
             for k, step in enumerate(beh):
                 root = os.path.join(d, f"v{bi}_{k}")
                 os.makedirs(root)
@@ -243,9 +245,17 @@ def run(tier: str, seed: int) -> Dict[str, Any]:
                         for lang, hv in oh.items():
                             if hv != h:
                                 viol.append({"signature": f"C13/LanguageDisagrees/{lang}", "replay": {"version": v, "parser_hash": h, "outputs": oh}})
+                except RuntimeError as ex:
+                    # a version the compiler does not accept has no hash to judge (C15's subject, not C13's): skip the behaviour
+                    broken = True
+                    nfail += 1
+                    fail_kinds.add(str(ex)[:120])
+                    break
                 finally:
                     shutil.rmtree(root, ignore_errors=True)
                 hashes.append(h)
+            if broken:
+                continue
             # the reuse-form message, step by step: its key is (REUSE_M, id + 500, the field list it takes over)
             for k in range(1, len(beh)):
                 a = beh[k]["a"]
@@ -339,7 +349,8 @@ def run(tier: str, seed: int) -> Dict[str, Any]:
            "samples": [{"behaviour": behs[0]}],
            "explanation": "HashCanon.tla model checked (edits change Canon, noise does not); TLC -simulate behaviours of edits/relocations are "
                           "materialised and compiled by the real compiler; equal hash <=> equal canonical key for every pair of versions"}
-    return {"level": "model_checking", "coverage": cov, "violations": viol, "notes": [],
+    notes = [f"{nfail} behaviour(s) skipped: a version did not compile ({sorted(fail_kinds)[:3]})"] if nfail else []
+    return {"level": "model_checking", "coverage": cov, "violations": viol, "notes": notes,
             "assumptions": ["the hash is treated as an injective function of the canonical key (sha256 truncated to 32 bits: accidental collisions are ignored)",
                             "type text is compared as written (char[ 8 ] and char[8] are different texts)"]}
 
